@@ -911,7 +911,7 @@ example : twprgeFinder {} (rText ['\n'] g1 [g2]) TR_DESC_S = .ok (trsOf (rGroups
 
 /-- the premise "the first block has at least 3 characters" of the full statement is necessary: with a 2-character first
     block (inert) `deduce_layout` answers TRS_desc (replayed on the library: `PLSSDesc('T154N-R97W xy, Sec 14:').current_layout`) -/
-theorem C01_TR_desc_S_short_block_not_deduced :
+theorem _root_.PyTRS.C01_TR_desc_S_short_block_not_deduced :
     Inert (S "xy") ∧ deduceLayout (rText [' '] ⟨stdHd 154 97 'n' 'w', ⟨'1', '4', S "xy"⟩, []⟩ []) = TRS_DESC := by
   decide +kernel
 
